@@ -524,10 +524,10 @@ def assemble_unit(unit_dir, repo=None, canary=False):
                                  "sha256_16": sha(raw), "anchors": [], "external": False})
                 used_items.add(ckey)
                 continue
-            m = re.match(r"^<(.+) for (.+)>::(\w+)$", sel)
+            m = re.match(r"^(.+)@(.+)$", sel)   # Type::method@Trait  = method of `impl Trait for Type`
             if m:
-                trait = m.group(1)
-                sel_path = "%s::%s" % (m.group(2), m.group(3))
+                trait = m.group(2)
+                sel_path = m.group(1)
             else:
                 sel_path = sel
             it = sel_item(items, sel_path, trait)
